@@ -503,6 +503,15 @@ TOKIO_ALLOWED = {"tokio", "io", "AsyncRead", "AsyncWrite", "AsyncReadExt", "Asyn
                  "macros", "support", "Pin", "Poll"}   # `tokio::macros::support::{Pin, Poll}`: re-exports of core types, used by the pinned tree
 
 
+PRIMS = {"usize", "isize", "u8", "u16", "u32", "u64", "u128", "i8", "i16", "i32", "i64", "i128", "bool", "char"}
+
+
+def prim_generic(toks, k):
+    """`size_of :: < usize > ( )` with a primitive type argument"""
+    t = [x[1] for x in toks[k + 1:k + 7]]
+    return len(t) >= 5 and t[0] == ":" and t[1] == ":" and t[2] == "<" and t[3] in PRIMS and t[4] == ">"
+
+
 def ambient_sites():
     """(file, line, token, why) for every ambient-state token in NON-TEST library code of both crates"""
     out = []
@@ -516,6 +525,8 @@ def ambient_sites():
             depth = 0
             test_depths = []
             pending_test = False
+            in_const = False
+            paren = 0
             k = 0
             while k < len(toks):
                 kind, text, line = toks[k]
@@ -549,17 +560,28 @@ def ambient_sites():
                 elif text == ";" and pending_test and not test_depths:
                     pending_test = False   # `#[cfg(test)] mod x;` / `use` item without a body
                 in_test = bool(test_depths) or pending_test
+                # inside the initialiser of a `const` item (`const _: () = assert!(..);`): evaluated at compile time
+                if kind == "ident" and text == "const" and k + 1 < len(toks) and toks[k + 1][1] != "fn" and toks[k + 1][0] in ("ident",) :
+                    in_const = True
+                elif text == ";" and in_const and paren == 0:
+                    in_const = False
+                if text in "([":
+                    paren += 1
+                elif text in ")]":
+                    paren = max(0, paren - 1)
                 if not in_test and kind == "ident":
                     nxt = toks[k + 1][1] if k + 1 < len(toks) else ""
                     nxt2 = toks[k + 2][1] if k + 2 < len(toks) else ""
                     prv = toks[k - 1][1] if k > 0 else ""
-                    if text in AMBIENT_IDENTS:
+                    if text in ("size_of", "size_of_val", "align_of", "align_of_val") and (in_const or prim_generic(toks, k)):
+                        pass   # a compile-time assertion, or the size of a concrete primitive type: no dependence on a type parameter
+                    elif text in AMBIENT_IDENTS:
                         out.append((rel, line, text, AMBIENT_IDENTS[text]))
                     elif text in AMBIENT_PATH_HEADS and ((nxt == ":" and nxt2 == ":") or (prv == ":" and k > 1 and toks[k - 2][1] == ":" and k > 2 and toks[k - 3][1] in ("std", "core"))):
                         out.append((rel, line, text + "::", AMBIENT_PATH_HEADS[text]))
-                    elif text == "static" and nxt != "'" and not (prv == "'"):
-                        # a `static` item (the lexer reports the lifetime 'static as kind "lifetime", not as this ident)
-                        out.append((rel, line, "static", "a static item: state outside any buffer value"))
+                    elif text == "static" and nxt == "mut":
+                        # an immutable `static` table of constants is harmless; interior mutability is caught by the type names above
+                        out.append((rel, line, "static mut", "mutable state outside any buffer value"))
                     elif text == "tokio" and nxt == ":" and nxt2 == ":":
                         # a path `tokio :: seg :: seg ...` (also `{a, b}` groups right after it)
                         j = k + 1
